@@ -1,6 +1,7 @@
 package ssax
 
 import (
+	"go/constant"
 	"fmt"
 	"go/token"
 	"sort"
@@ -183,7 +184,7 @@ func (n *Normalizer) counter(p *ssa.Phi) (Lin, bool) {
 		switch x := v.(type) {
 		case *ssa.Phi:
 			inCycle[v] = true
-			for _, e := range x.Edges {
+			for _, e := range FeasibleEdges(x) {
 				if !visit(e) {
 					return false
 				}
@@ -258,7 +259,7 @@ func reaches(v ssa.Value, p *ssa.Phi) bool {
 		seen[v] = true
 		switch x := v.(type) {
 		case *ssa.Phi:
-			for _, e := range x.Edges {
+			for _, e := range FeasibleEdges(x) {
 				if f(e) {
 					return true
 				}
@@ -287,6 +288,32 @@ func StatusConds(fn *ssa.Function) []StatusCond { return StatusCondsUnder(fn, ni
 // collapses to the common constant of its alternatives whose predecessor is still reachable from the entry.
 func ConstIntUnder(fn *ssa.Function, v ssa.Value, cut []Edge) (int64, bool) {
 	return constIntUnder(fn, v, cut, 0)
+}
+
+// Assumption: the branch edges never taken, plus one value known to equal a string constant (the event of a shared
+// callback).
+type Assumption struct {
+	Cut      []Edge
+	KeyVal   ssa.Value
+	KeyConst string
+}
+
+// ConstIntUnderA is ConstIntUnder that also evaluates lookups in package-level constant tables keyed by the assumed value.
+func ConstIntUnderA(fn *ssa.Function, v ssa.Value, a Assumption) (int64, bool) {
+	if k, ok := constIntUnder(fn, v, a.Cut, 0); ok {
+		return k, true
+	}
+	if a.KeyVal == nil {
+		return 0, false
+	}
+	if tf, ok := AsTableField(Resolve(v)); ok && Resolve(tf.Key) == Resolve(a.KeyVal) {
+		if cv, ok := ConstOfTableField(tf, a.KeyConst); ok && cv.Kind() == constant.Int {
+			if k, exact := constant.Int64Val(cv); exact {
+				return k, true
+			}
+		}
+	}
+	return 0, false
 }
 
 func constIntUnder(fn *ssa.Function, v ssa.Value, cut []Edge, depth int) (int64, bool) {
@@ -335,13 +362,17 @@ func constIntUnder(fn *ssa.Function, v ssa.Value, cut []Edge, depth int) (int64,
 
 // StatusCondsUnder is StatusConds where the constant side may be a value that is constant under the assumption.
 func StatusCondsUnder(fn *ssa.Function, cut []Edge) []StatusCond {
+	return StatusCondsUnderA(fn, Assumption{Cut: cut})
+}
+
+func StatusCondsUnderA(fn *ssa.Function, a Assumption) []StatusCond {
 	var out []StatusCond
 	for _, c := range Conds(fn) {
 		if c.Op != token.EQL && c.Op != token.NEQ {
 			continue
 		}
 		for _, pr := range [][2]ssa.Value{{c.X, c.Y}, {c.Y, c.X}} {
-			k, ok := ConstIntUnder(fn, pr[1], cut)
+			k, ok := ConstIntUnderA(fn, pr[1], a)
 			if !ok {
 				continue
 			}
